@@ -8,6 +8,7 @@ import re
 import abbr_gen as g
 import format_util as fu
 import c12_opts as co
+import c12_classes as cc
 from markup_util import run_cases, canon_cfg, enc_config, decode_res, NotModelled, mentions_lorem
 from common import enc_str
 
@@ -25,7 +26,19 @@ def oracle_depth(out, cfg):
     return fu.depth_check(out, co.in_force(cfg))
 
 
-def oracle_comments(out_on, out_off, cfg_on):
+def depth_premise(abbr, out, cfg):
+    """"With formatting on and no element exempted through output.formatSkip": the second sentence of the statement
+    speaks about this expansion.  The list in force is the explicit one, else the documented default ['html']; an element
+    is exempted when its name IS an entry (exact spelling: names are case-sensitive)."""
+    o = co.in_force(cfg)
+    return bool(o['output.format']) and not cc.exempted_by_format_skip(abbr, out, o)
+
+
+def after_tag_blanks_dropped(s):
+    return re.sub(r'>[ \t]+', '>', s)
+
+
+def oracle_comments(out_on, out_off, cfg_on, abbr=None):
     """Enabling comments only adds comment text: erasing it gives the comment-off output."""
     a = fu.strip_comments_tokens(out_on)
     b = fu.content(out_off)
@@ -77,6 +90,14 @@ def oracle_comments(out_on, out_off, cfg_on):
         pat = re.escape(nl + base) + '(?:' + re.escape(ind) + ')*' + r'<!-- /[^\r\n]*? -->' if ind else \
             re.escape(nl + base) + r'<!-- /[^\r\n]*? -->'
         erased = re.sub(pat, '', out_on)
+        if erased != out_off and abbr is not None and '${' in abbr and \
+                after_tag_blanks_dropped(erased) == after_tag_blanks_dropped(out_off):
+            # A value with an explicit field on a node with children: the rest of the value follows the children, and
+            # its leading blanks are dropped when the children ended on another line -- which a comment with a line
+            # break brings about (`</p> b` vs `</p>\n<!-- /.c -->b`).  Blanks between a tag and the text after it are
+            # the whitespace the statement calls cosmetic; coq/props/C12.v states C12_comments_additive on text items
+            # with leading blanks removed for this very reason.  Only this difference is let through.
+            erased = out_off
         if erased != out_off:
             return 'erasing the comment lines gives %r, comment-off output is %r' % (erased[:200], out_off[:200])
     return None
@@ -135,17 +156,32 @@ def rand_depth_abbr(rng):
     return abbr, True
 
 
-def make_group(rng, kind_bias=None):
+def make_group(rng, kind_bias=None, variant=None):
     """One abbreviation with the configurations it is run under.
-    Returns dict(abbr, cfgs={name: cfg}, checks=[(kind, name_a, name_b)])."""
-    level = 'depth' if rng.random() < 0.35 else 'c12'
+    Returns dict(abbr, cfgs={name: cfg}, checks=[(kind, name_a, name_b)]).
+    variant 'fields': values with fields (c12_classes, class 1) -- content checks only, the indentation of a value
+    that is split around children is the subject of listed findings;
+    variant 'case': element names in every case shape, list options with near-miss entries (c12_classes, class 2)."""
+    level = 'depth' if rng.random() < (0.5 if variant == 'case' else 0.35) else 'c12'
     listed = False
-    if level == 'depth':
+    cased_names = None
+    if variant == 'fields':
+        level = 'c12'
+        abbr = cc.rand_field_abbr(rng)
+    elif variant == 'case':
+        st = cc.rand_cased_stmt(rng, level)
+        abbr = g.render(st)
+        cased_names = cc.stmt_names(st)
+        listed = True           # the depth configuration marks self-closed tags
+    elif level == 'depth':
         abbr, listed = rand_depth_abbr(rng)
     else:
         st = fu.rand_abbr(rng, level)
         abbr = g.render(st)
     names = sorted(set(re.findall(r'[a-z][a-z0-9:\-]*', abbr)))[:8]
+    if cased_names is not None:
+        # the cosmetic list options draw from the exact names AND from their near misses (other case shapes)
+        names = sorted(cased_names)[:6] + cc.near_miss_list(rng, cased_names)
     base = fu.rand_base(rng)
     k1 = fu.rand_cosmetic(rng, names)
     k2 = fu.rand_cosmetic(rng, names)
@@ -159,6 +195,14 @@ def make_group(rng, kind_bias=None):
         d['options'].update({'output.format': True, 'output.formatSkip': skip,
                              'output.indent': rng.choice(['\t', '  ', '    ']),
                              'output.newline': rng.choice(['\n', '\r\n'])})
+        if cased_names is not None:
+            # formatSkip left unset (documented default ['html']) or naming near misses of the names present: no
+            # entry IS an element name, so nothing is exempted (depth_premise() re-checks that on the output)
+            k = rng.random()
+            if k < 0.4:
+                del d['options']['output.formatSkip']
+            elif k < 0.85:
+                d['options']['output.formatSkip'] = cc.near_miss_list(rng, cased_names)
         if rng.random() < 0.2:
             d['options']['output.formatForce'] = rng.choice([[], ['html'], ['p', 'body']])
         if ('/' in abbr or listed) and co.in_force(d)['output.selfClosingStyle'] == 'html':
@@ -177,13 +221,14 @@ def make_group(rng, kind_bias=None):
             con['comment.before'], con['comment.after'] = rng.choice(fu.COMMENT_TEMPLATES + [('', '')])
     on = fu.with_options(cfgs[src], con)
     off = fu.with_options(on, {'comment.enabled': False})
-    cfgs['con'], cfgs['coff'] = on, off
-    checks.append(('comments', 'con', 'coff'))
+    if '<!--' not in abbr:      # a text that itself writes comment marks: the comment oracle cannot tell them apart
+        cfgs['con'], cfgs['coff'] = on, off
+        checks.append(('comments', 'con', 'coff'))
     styles = rng.sample(['html', 'xhtml', 'xml'], 2)
     cfgs['s1'] = fu.with_options(cfgs[src], {'output.selfClosingStyle': styles[0]})
     cfgs['s2'] = fu.with_options(cfgs[src], {'output.selfClosingStyle': styles[1]})
     checks.append(('selfclose', 's1', 's2'))
-    return {'abbr': abbr, 'cfgs': cfgs, 'checks': checks, 'listed': listed}
+    return {'abbr': abbr, 'cfgs': cfgs, 'checks': checks, 'listed': listed and variant != 'case', 'variant': variant}
 
 
 FIXED = [
@@ -314,6 +359,77 @@ def cover_option_classes(ctx, kind, gr, cfg_a):
             ctx.cover('C12:cosmetic-list-option-explicit-empty')
 
 
+def add_field_value_groups(ctx, rng, groups):
+    """Class 1 of c12_classes: values with fields.  A deterministic sweep over every value shape (string / empty field /
+    field with placeholder in every order, up to 3 pieces in the quick tier, 4 in the thorough one) x host x children
+    shape x option pair, then random statements with such values."""
+    quick = ctx.tier == 'quick'
+    n_sw = 0
+    for k, (abbr, oa, ob) in enumerate(cc.field_value_sweep(3 if quick else 4, stride=4 if quick else 1)):
+        syn = fu.HTML_SYNTAXES[k % len(fu.HTML_SYNTAXES)]
+        groups.append({'abbr': abbr, 'cfgs': {'a': {'syntax': syn, 'options': oa}, 'b': {'syntax': syn, 'options': ob}},
+                       'checks': [('cosmetic', 'a', 'b')], 'variant': 'fields'})
+        n_sw += 1
+    n = 110 if quick else 1200
+    for _ in range(n):
+        groups.append(make_group(rng, variant='fields'))
+    ctx.cov['field_value_groups'] = {'sweep': n_sw, 'random': n}
+
+
+def add_name_case_groups(ctx, rng, groups):
+    """Class 2 of c12_classes: letter case of element names against the list options."""
+    quick = ctx.tier == 'quick'
+    n_sw = 0
+    for k, (abbr, _names, skip) in enumerate(cc.case_sweep()):
+        syn = fu.HTML_SYNTAXES[k % len(fu.HTML_SYNTAXES)]
+        a = {'syntax': syn, 'options': {'output.selfClosingStyle': 'xhtml', 'output.format': bool(k % 2)}}
+        d = {'syntax': syn, 'options': {'output.selfClosingStyle': 'xhtml', 'output.format': True,
+                                        'output.indent': ['\t', '  '][k % 2]}}
+        if skip is not None:
+            d['options']['output.formatSkip'] = list(skip)
+        if k % 5 == 0:
+            d['options']['output.baseIndent'] = '  '
+        groups.append({'abbr': abbr, 'cfgs': {'a': a, 'd': d}, 'checks': [('cosmetic', 'a', 'd'), ('depth', 'd', None)],
+                       'variant': 'case'})
+        n_sw += 1
+    n = 100 if quick else 1200
+    for _ in range(n):
+        groups.append(make_group(rng, variant='case'))
+    ctx.cov['name_case_groups'] = {'sweep': n_sw, 'random': n}
+
+
+FIELD_IN_VALUE_RE = re.compile(r'\$\{\d+(?::[^{}]*)?\}')
+
+
+def cover_new_classes(ctx, kind, gr, cfg_a, ra):
+    """Evidence for the two classes of c12_classes."""
+    abbr = gr['abbr']
+    if gr.get('variant') == 'fields' and kind == 'cosmetic':
+        ctx.cover('C12:field-values')
+        if re.search(r'\$\{\d+(?::[^{}]*)?\}\$\{', abbr):
+            ctx.cover('C12:field-values-two-fields-in-a-row')
+        if re.search(r'\$\{\d+:[^{}]+\}', abbr):
+            ctx.cover('C12:field-values-with-placeholder')
+        if re.search(r'(^|[>+^(])\{[^{}]*\$\{[^{}]*\}[^{}]*(\$\{[^{}]*\}[^{}]*)*\}(\*\d+)?>', abbr):
+            ctx.cover('C12:field-values-text-node-with-children')
+        if re.search(r'[\w\]]\{[^{}]*\$\{[^{}]*\}[^{}]*(\$\{[^{}]*\}[^{}]*)*\}(\*\d+)?>', abbr):
+            ctx.cover('C12:field-values-element-text-with-children')
+    if gr.get('variant') == 'case':
+        if kind == 'depth' and ra[0] == 'ok':
+            o = co.in_force(cfg_a)
+            skip = o.get('output.formatSkip') or []
+            if not depth_premise(abbr, ra[1], cfg_a):
+                ctx.cover('C12:name-case-depth-premise-not-met(an entry is a name)')
+            else:
+                ctx.cover('C12:name-case-depth-checked')
+                low = set(t[1].lower() for t, _ in fu.scan(ra[1]) if t[0] == 'open')
+                if any(s.lower() in low for s in skip):
+                    ctx.cover('C12:name-case-depth-formatSkip-near-miss-%s' % (
+                        'explicit' if 'output.formatSkip' in (cfg_a.get('options') or {}) else 'default'))
+        elif kind == 'cosmetic':
+            ctx.cover('C12:name-case-cosmetic')
+
+
 def load_corpus():
     out = []
     for p in sorted(glob.glob(os.path.join(CORPUS, '*.json'))):
@@ -335,6 +451,8 @@ def evaluate(kind, abbr, cfg_a, cfg_b, ra, rb):
     if kind == 'cosmetic':
         return oracle_cosmetic(ra[1], rb[1]), None
     if kind == 'depth':
+        if not depth_premise(abbr, ra[1], cfg_a):
+            return None, None
         bad = oracle_depth(ra[1], cfg_a)
         if bad and bad.startswith(fu.ALIGN_LEAF):
             return bad, 'C12:close-aligned-inline-leaf-inner-format'
@@ -342,7 +460,7 @@ def evaluate(kind, abbr, cfg_a, cfg_b, ra, rb):
             return bad, classify_alignment(ra[1], cfg_a, bad)
         return bad, None
     if kind == 'comments':
-        return oracle_comments(ra[1], rb[1], cfg_a), None
+        return oracle_comments(ra[1], rb[1], cfg_a, abbr), None
     if kind == 'selfclose':
         bad = oracle_selfclose(ra[1], rb[1])
         if bad:
@@ -416,6 +534,20 @@ def run(ctx):
         'random: about a third of the depth abbreviations contain html/body/head or hang below a document snippet; '
         'the depth configuration gives formatSkip explicitly as [] (75%) or as a list of names absent from the output; '
         'the comment-on configuration gives comment.trigger explicitly (empty list included) in 30% of the groups. '
+        'Values with fields (harness/c12_classes.py, class 1): text values composed of plain strings, fields without and '
+        'with placeholder in every order -- field first / last / between strings, two and three fields in a row -- '
+        'optionally inside brackets, tags or comment marks, on elements and on bare text nodes, with children (the '
+        'first field is then the child slot; children inline, block, repeated, nested) and without, plus fields in '
+        'attribute values: a deterministic sweep of every value shape x host x children shape x option pair and random '
+        'statements; judged by the cosmetic, comment and self-closing oracles (NOT by the depth oracle: the '
+        'indentation of a value split around children is the subject of the listed push_snippet findings). '
+        'Letter case of element names (class 2): every name may be written lower-case, UPPER-case, Capitalised or '
+        'miXed (plain names, html/body/head, inline names, the document skeleton); formatSkip / formatForce of the '
+        'cosmetic runs draw from the exact names and from their other case shapes; the depth configuration leaves '
+        'formatSkip unset (documented default [\'html\']) or names near misses only (entries that equal a name of the '
+        'abbreviation ignoring case but are not that name). The premise "no element exempted through formatSkip" is '
+        'evaluated by the oracle itself: an element is exempted iff its exact name is an entry of the list in force '
+        '(read from the words of the abbreviation and the element names of the output, never from the library). '
         'non-trivial = at least two elements in the output; distinct by (abbreviation, configuration).')
     rng = ctx.rng
     groups = []
@@ -481,6 +613,8 @@ def run(ctx):
     n = 700 if ctx.tier == 'quick' else 12000
     for _ in range(n):
         groups.append(make_group(rng))
+    add_field_value_groups(ctx, rng, groups)
+    add_name_case_groups(ctx, rng, groups)
     cases = []
     index = {}
     for gi, gr in enumerate(groups):
@@ -498,6 +632,7 @@ def run(ctx):
             bad, cls = evaluate(kind, abbr, cfg_a, cfg_b, ra, rb)
             ctx.cover('C12:check-' + kind)
             cover_option_classes(ctx, kind, gr, cfg_a)
+            cover_new_classes(ctx, kind, gr, cfg_a, ra)
             if ra[0] == 'ok':
                 syn = cfg_a.get('syntax', 'html')
                 ctx.cover('C12:syntax-' + syn)
